@@ -44,21 +44,21 @@ CALLS: Dict[str, Dict[str, FrozenSet[str]]] = {
     "builtins.issubclass": {"ANY": E({TE}), "type": NONE},
     "builtins.callable": {"ANY": NONE},
     "builtins.hash": {"ANY": E({TE}), **{t: NONE for t in HASHABLE_SCALARS}},
-    "builtins.len": {"ANY": E({TE}), "tuple": NONE, "list": NONE, "dict": NONE, "set": NONE, "frozenset": NONE,
+    "builtins.len": {"ANY": E({TE}), "IntSubscriptable": NONE, "tuple": NONE, "list": NONE, "dict": NONE, "set": NONE, "frozenset": NONE,
                      "str": NONE, "bytes": NONE, "bytearray": NONE, "Mapping": NONE, "Sized": NONE, "Sequence": NONE,
                      "Collection": NONE},
-    "builtins.iter": {"ANY": E({TE}), "tuple": NONE, "list": NONE, "dict": NONE, "set": NONE, "frozenset": NONE,
+    "builtins.iter": {"ANY": E({TE}), "IntSubscriptable": NONE, "tuple": NONE, "list": NONE, "dict": NONE, "set": NONE, "frozenset": NONE,
                       "str": NONE, "bytes": NONE, "iterator": NONE, "Mapping": NONE, "Iterable": NONE,
                       "Sequence": NONE, "Collection": NONE},
-    "builtins.tuple": {"ANY": E({TE}), "tuple": NONE, "list": NONE, "dict": NONE, "set": NONE, "frozenset": NONE,
+    "builtins.tuple": {"ANY": E({TE}), "IntSubscriptable": NONE, "tuple": NONE, "list": NONE, "dict": NONE, "set": NONE, "frozenset": NONE,
                        "str": NONE, "bytes": NONE, "iterator": NONE, "Mapping": NONE, "Iterable": NONE,
                        "Sequence": NONE, "Collection": NONE},
-    "builtins.list": {"ANY": E({TE}), "tuple": NONE, "list": NONE, "dict": NONE, "set": NONE, "frozenset": NONE,
+    "builtins.list": {"ANY": E({TE}), "IntSubscriptable": NONE, "tuple": NONE, "list": NONE, "dict": NONE, "set": NONE, "frozenset": NONE,
                       "str": NONE, "bytes": NONE, "iterator": NONE, "Mapping": NONE, "Iterable": NONE,
                       "Sequence": NONE, "Collection": NONE},
     # hashing every element of raw data
-    "builtins.set": {"ANY": E({TE}), "str": NONE, "bytes": NONE},
-    "builtins.frozenset": {"ANY": E({TE}), "str": NONE, "bytes": NONE},
+    "builtins.set": {"ANY": E({TE}), "str": NONE, "bytes": NONE, "Mapping": NONE, "dict": NONE},
+    "builtins.frozenset": {"ANY": E({TE}), "str": NONE, "bytes": NONE, "Mapping": NONE, "dict": NONE},
     "builtins.dict": {"ANY": E({TE, VE}), "dict": NONE},
     "builtins.sorted": {"ANY": E({TE})},
     "builtins.sum": {"ANY": E({TE, OE})},
